@@ -3,6 +3,7 @@ replaced by versions under which exactly one thread runs at a time; every queue 
 start, file write and flush is a scheduling point at which the next thread is chosen among those
 whose pending operation is enabled.  Choices come from a list of integers (a schedule is a value)."""
 import collections
+import queue as _queue
 import threading
 
 
@@ -126,15 +127,46 @@ def make_patches(S, capacity=None):
             self.qn = "q%d" % SQueue.count[0]
             self.max_len = 0
 
-        def put(self, item):
-            S.op(("put", self.qn), lambda: self.maxsize <= 0 or len(self.items) < self.maxsize)
+        # the whole queue.Queue interface, so that a pipeline written against any part of it runs under
+        # the scheduler; every operation is one scheduling point (queue.Queue is linearisable).
+        # Timeouts are modelled as "never fires" (the wait is simply blocking).
+        def put(self, item, block=True, timeout=None):
+            if block:
+                S.op(("put", self.qn), lambda: self.maxsize <= 0 or len(self.items) < self.maxsize)
+            else:
+                S.op(("put_nowait", self.qn))
+                if 0 < self.maxsize <= len(self.items):
+                    raise _queue.Full
             self.items.append(item)
             self.unfinished += 1
             self.max_len = max(self.max_len, len(self.items))
 
-        def get(self):
-            S.op(("get", self.qn), lambda: len(self.items) > 0)
+        def get(self, block=True, timeout=None):
+            if block:
+                S.op(("get", self.qn), lambda: len(self.items) > 0)
+            else:
+                S.op(("get_nowait", self.qn))
+                if not self.items:
+                    raise _queue.Empty
             return self.items.popleft()
+
+        def put_nowait(self, item):
+            return self.put(item, block=False)
+
+        def get_nowait(self):
+            return self.get(block=False)
+
+        def qsize(self):
+            S.op(("qsize", self.qn))
+            return len(self.items)
+
+        def empty(self):
+            S.op(("empty", self.qn))
+            return not self.items
+
+        def full(self):
+            S.op(("full", self.qn))
+            return 0 < self.maxsize <= len(self.items)
 
         def task_done(self):
             S.op(("task_done", self.qn))
